@@ -90,13 +90,16 @@ package persistence
 // ---- fan curve data (bucket "fans") --------------------------------------------------------------------------
 
 //@ func (persistence).openPersistence
+//@   params (p)
 //@   ensures err == nil ==> db != nil
 //@   modifies nothing
 
 //@ func (persistence).SaveFanPwmData$1
+//@   params (db)
 //@   requires db != nil
 //@   modifies nothing
 //@ func (persistence).SaveFanPwmData$2
+//@   params (tx)
 //@   props C14
 //@   requires tx != nil && txWF()
 //@   ensures result == nil ==> txHas == old(txHas)["fans" := old(txHas)["fans"][*key := true]] && txVal == old(txVal)["fans" := old(txVal)["fans"][*key := strof(*data)]] && txBucket == old(txBucket)["fans" := true]
@@ -104,6 +107,7 @@ package persistence
 //@   modifies txBucket, txHas, txVal
 
 //@ func (persistence).SaveFanPwmData
+//@   params (p, fan)
 //@   props C14
 //@   requires fans.fanWF(fan) && fans.dataPtr(fan) != nil && dbWF() && ref(*fans.dataPtr(fan)) < W
 //@   ensures[C14.save.has]  err == nil ==> dbHas["fans"][fanId(fan)] && othersSame("fans", fanId(fan))
@@ -119,9 +123,11 @@ package persistence
 //@     invariant forall k :: k in visited#1 ==> mapval(fanCurveDataMap)[k] == mapval(*fans.dataPtr(fan))[k] && mapvalk(fanCurveDataMap)[k] == mapvalk(*fans.dataPtr(fan))[k]
 
 //@ func (persistence).LoadFanPwmData$1
+//@   params (db)
 //@   requires db != nil
 //@   modifies nothing
 //@ func (persistence).LoadFanPwmData$2
+//@   params (tx)
 //@   props C14
 //@   requires tx != nil && txWF()
 //@   ensures[C14.tx.missing] !old(txHas)["fans"][*key] ==> result == os.ErrNotExist && txHas == old(txHas) && txVal == old(txVal)
@@ -130,6 +136,7 @@ package persistence
 //@   modifies txHas, txVal, decodeFailed, *fanCurveDataMap
 
 //@ func (persistence).LoadFanPwmData
+//@   params (p, fan)
 //@   props C14
 //@   returns (data, err)
 //@   requires fans.fanWF(fan) && dbWF()
@@ -145,9 +152,11 @@ package persistence
 //@   modifies dbBucket, dbHas, dbVal, txBucket, txHas, txVal, decodeFailed, curveLoadCount, curveLoadOK, txStarted, txCommits
 
 //@ func (persistence).DeleteFanPwmData$1
+//@   params (db)
 //@   requires db != nil
 //@   modifies nothing
 //@ func (persistence).DeleteFanPwmData$2
+//@   params (tx)
 //@   props C14
 //@   requires tx != nil && txWF()
 //@   ensures result == nil ==> txHas == old(txHas)["fans" := old(txHas)["fans"][*key := false]]
@@ -157,6 +166,7 @@ package persistence
 //@   modifies txHas, txVal
 
 //@ func (persistence).DeleteFanPwmData
+//@   params (p, fan)
 //@   props C14
 //@   requires fans.fanWF(fan) && dbWF()
 //@   ensures[C14.delete C15] result == nil ==> !dbHas["fans"][fanId(fan)]
@@ -169,9 +179,11 @@ package persistence
 // ---- pwm maps (bucket "fanPwmMap") ---------------------------------------------------------------------------
 
 //@ func (persistence).SaveFanPwmMap$1
+//@   params (db)
 //@   requires db != nil
 //@   modifies nothing
 //@ func (persistence).SaveFanPwmMap$2
+//@   params (tx)
 //@   props C14
 //@   requires tx != nil && txWF()
 //@   ensures result == nil ==> txHas == old(txHas)["fanPwmMap" := old(txHas)["fanPwmMap"][*key := true]] && txVal == old(txVal)["fanPwmMap" := old(txVal)["fanPwmMap"][*key := strof(*data)]] && txBucket == old(txBucket)["fanPwmMap" := true]
@@ -179,6 +191,7 @@ package persistence
 //@   modifies txBucket, txHas, txVal
 
 //@ func (persistence).SaveFanPwmMap
+//@   params (p, fanId, pwmMap)
 //@   props C14
 //@   requires dbWF()
 //@   ensures[C14.savemap.has C15]  err == nil ==> dbHas["fanPwmMap"][fanId] && othersSame("fanPwmMap", fanId)
@@ -192,9 +205,11 @@ package persistence
 //@     invariant mapdom(pwmMap) == old(mapdom(pwmMap)) && mapval(pwmMap) == old(mapval(pwmMap)) && len(pwmMap) == old(len(pwmMap))
 
 //@ func (persistence).LoadFanPwmMap$1
+//@   params (db)
 //@   requires db != nil
 //@   modifies nothing
 //@ func (persistence).LoadFanPwmMap$2
+//@   params (tx)
 //@   props C14
 //@   requires tx != nil && txWF()
 //@   ensures[C14.tx.missing] !old(txHas)["fanPwmMap"][*key] ==> result == os.ErrNotExist && txHas == old(txHas) && txVal == old(txVal)
@@ -203,6 +218,7 @@ package persistence
 //@   modifies txHas, txVal, decodeFailed, *pwmMap
 
 //@ func (persistence).LoadFanPwmMap
+//@   params (p, fanId)
 //@   props C14
 //@   returns (data, err)
 //@   requires dbWF()
@@ -219,9 +235,11 @@ package persistence
 //@   modifies dbBucket, dbHas, dbVal, txBucket, txHas, txVal, decodeFailed, mapLoadCount, mapLoadOK, mapLoadRes, txStarted, txCommits
 
 //@ func (persistence).DeleteFanPwmMap$1
+//@   params (db)
 //@   requires db != nil
 //@   modifies nothing
 //@ func (persistence).DeleteFanPwmMap$2
+//@   params (tx)
 //@   props C14
 //@   requires tx != nil && txWF()
 //@   ensures result == nil ==> txHas == old(txHas)["fanPwmMap" := old(txHas)["fanPwmMap"][*key := false]]
@@ -231,6 +249,7 @@ package persistence
 //@   modifies txHas, txVal
 
 //@ func (persistence).DeleteFanPwmMap
+//@   params (p, fanId)
 //@   props C14
 //@   requires dbWF()
 //@   ensures[C14.deletemap C15] result == nil ==> !dbHas["fanPwmMap"][fanId]
@@ -247,6 +266,7 @@ package persistence
 //@ pure mapEntrySame(id string) bool = dbHas["fanPwmMap"][id] == old(dbHas)["fanPwmMap"][id] && dbVal["fanPwmMap"][id] == old(dbVal)["fanPwmMap"][id]
 
 //@ func lemmaOtherOp
+//@   params (p, b, id2, m, op)
 //@   props C14
 //@   requires fans.fanWF(b) && fans.dataPtr(b) != nil && ref(*fans.dataPtr(b)) < W && dbWF()
 //@   ensures[C14.step.curve] forall id string :: id != fanId(b) ==> curveEntrySame(id)
@@ -256,6 +276,7 @@ package persistence
 //@   modifies dbBucket, dbHas, dbVal, txBucket, txHas, txVal, decodeFailed, curveLoadCount, curveLoadOK, mapLoadCount, mapLoadOK, mapLoadRes, m[_], txStarted, txCommits
 
 //@ func lemmaCurveHistory
+//@   params (p, a, bs, ids, ms, ops)
 //@   props C14
 //@   requires fans.fanWF(a) && fans.dataPtr(a) != nil && ref(*fans.dataPtr(a)) < W && dbWF()
 //@   requires forall i int :: 0 <= i && i < len(bs) && bs[i] != nil ==> fans.fanWF(bs[i]) && (fans.dataPtr(bs[i]) != nil ==> ref(*fans.dataPtr(bs[i])) < W)
@@ -268,6 +289,7 @@ package persistence
 //@     decreases len(ops) - i
 
 //@ func lemmaMapHistory
+//@   params (p, id, pwmMap, bs, ids, ms, ops)
 //@   props C14
 //@   requires dbWF()
 //@   requires forall i int :: 0 <= i && i < len(bs) && bs[i] != nil ==> fans.fanWF(bs[i]) && (fans.dataPtr(bs[i]) != nil ==> ref(*fans.dataPtr(bs[i])) < W)
@@ -280,6 +302,7 @@ package persistence
 //@     decreases len(ops) - i
 
 //@ func lemmaDeleteTwice
+//@   params (p, a)
 //@   props C14
 //@   requires fans.fanWF(a) && dbWF()
 //@   ensures[C14.delete.idempotent] err1 == nil && err2 != nil ==> dbHas == old(dbHas) || !dbHas["fans"][fanId(a)]
@@ -294,8 +317,10 @@ package persistence
 //@   effectfree
 //@   trusted "creating the database directory touches nothing the contracts speak about"
 //@ func (persistence).Init
+//@   params (p)
 //@   modifies nothing
 
 //@ func NewPersistence
+//@   params (dbPath)
 //@   ensures result is *persistence && result.(*persistence) != nil
 //@   modifies nothing
